@@ -47,6 +47,14 @@ def generate(rng, tier):
             pix = ["%d,%d" % (x, y) for x in (0, 5, 11, 15) for y in (1, 8, 14)]
             body = ["R"] + vb + ["-"] + R.gradient_regs(rng, 20, nb, stops, shape, rng.below(4), mat=mat, sel=0) + R.full_rect_path(vb)
             g["nbase-sweep"].append("GRAD 0 0 16 16 %d %s %s" % (len(pix), " ".join(pix), " ".join(body)))
+    g["retarget-gradient"] = []
+    for _ in range(300 if tier == "quick" else 6000):
+        vb, rc, rc2 = R.viewbox(rng), R.rect(rng), R.rect(rng)
+        stops = R.good_stops(rng, rng.choice([2, 3]))
+        pix = ["%d,%d" % (rng.range(-10, 200), rng.range(-10, 200)) for _ in range(8)]
+        body = ["R"] + vb + ["-"] + R.gradient_regs(rng, 10, 10, stops, rng.below(2), rng.below(4), sel=0) + R.full_rect_path(vb)
+        body += ["SR"] + [str(x) for x in rc2] + R.full_rect_path(vb)
+        g["retarget-gradient"].append("GRAD %d %d %d %d %d %s %s" % (rc[0], rc[1], rc[2], rc[3], len(pix), " ".join(pix), " ".join(body)))
     for _ in range(2500 if tier == "quick" else 100000):
         vb, rc = R.viewbox(rng), R.rect(rng)
         ns = rng.choice([2, 2, 3, 4, 7, 20])
